@@ -2,6 +2,7 @@
 package c10
 
 import (
+	"fmt"
 	"math"
 	"sort"
 	"testing"
@@ -371,6 +372,74 @@ func TestConcurrentCallers(t *testing.T) {
 		c.ClassIf(anyOverlap, "overlapping-callers")
 		c.ClassIf(overlapAddRollback, "rollback-while-another-inside")
 		if anyOverlap {
+			c.NonTrivial()
+		}
+	})
+}
+
+// Several pacing rules on one resource: a request is paced by every one of them in list order (the serial caller really
+// sleeps each wait, so a later rule is consulted at the instant the earlier wait ends). Consecutive admitted requests
+// must therefore be separated by the spacing of EVERY rule, in particular of the strictest one, wherever it is listed.
+func TestSeveralPacingRules(t *testing.T) {
+	hx.Check(t, hx.N{Quick: 6000, Thorough: 60000}, func(t *rapid.T, c *hx.Case) {
+		hx.Reset(hx.Epoch + uint64(rapid.IntRange(0, 999).Draw(t, "t0")))
+		hx.C.Advance = true
+		defer func() { hx.C.Advance = false }()
+		nr := rapid.IntRange(2, 3).Draw(t, "rules")
+		var rs []*flow.Rule
+		var needs []int64
+		for i := 0; i < nr; i++ {
+			T := rapid.SampledFrom([]float64{1, 2, 5, 10, 50, 100, 1000}).Draw(t, "T")
+			rs = append(rs, &flow.Rule{ID: fmt.Sprint(i), Resource: "t", TokenCalculateStrategy: flow.Direct, ControlBehavior: flow.Throttling, Threshold: T, MaxQueueingTimeMs: 3600000})
+			needs = append(needs, need(1, T, 0))
+			c.Op("pacing rule %d: %v/s", i, T)
+		}
+		if rapid.IntRange(0, 3).Draw(t, "rejectRuleToo") == 0 { // an inert reject rule somewhere in the list
+			k := rapid.IntRange(0, len(rs)).Draw(t, "at")
+			rs = append(rs[:k:k], append([]*flow.Rule{{ID: "inert", Resource: "t", Threshold: 1e9}}, rs[k:]...)...)
+		}
+		if _, err := flow.LoadRules(rs); err != nil || len(flow.GetRulesOfResource("t")) != len(rs) {
+			t.Fatalf("LoadRules: %v", err)
+		}
+		strict := int64(0)
+		for _, nd := range needs {
+			if nd > strict {
+				strict = nd
+			}
+		}
+		lastPass := int64(-1)
+		waited := false
+		n := rapid.IntRange(2, 12).Draw(t, "n")
+		for i := 0; i < n; i++ {
+			if rapid.IntRange(0, 2).Draw(t, "gap") == 0 {
+				hx.C.AddNs(int64(rapid.IntRange(1, 300).Draw(t, "ms")) * 1e6)
+			}
+			arrive := hx.C.Ns()
+			hx.C.TakeSlept()
+			e, blk := sentinel.Entry("t")
+			var wait int64
+			for _, d := range hx.C.TakeSlept() {
+				wait += int64(d)
+			}
+			if blk != nil {
+				t.Fatalf("request %d rejected although every rule may queue for an hour: %v", i, blk)
+			}
+			e.Exit()
+			pass := int64(hx.C.Ns())
+			c.Op("arrive %d wait %dns pass %d", arrive, wait, pass)
+			if pass != int64(arrive)+wait {
+				t.Fatalf("the clock after the entry (%d) is not arrival + waits (%d + %d)", pass, arrive, wait)
+			}
+			if lastPass >= 0 && pass-lastPass < strict {
+				t.Fatalf("request %d passes at %dns, only %dns after the previous admitted request; the strictest of the %d pacing rules on the resource demands %dns between admitted requests (rule spacings %v)", i, pass, pass-lastPass, nr, strict, needs)
+			}
+			if wait > 0 {
+				waited = true
+			}
+			lastPass = pass
+		}
+		c.ClassIf(waited, "wait>0")
+		if waited {
 			c.NonTrivial()
 		}
 	})
